@@ -226,8 +226,13 @@ def rule_s(F):
                     probs.append("keys are compared with %s instead of Value's own ordering (the one `<` uses): integers beyond 2^53, "
                                  "strings and tables are ordered differently from the comparison cards" % names[-1])
                     continue
-                recv = hir_local_id(hu.strip_all(y["recv"])) if y.get("k") == "mcall" else None
-                arg = hir_local_id(hu.strip_all(y["args"][0])) if y.get("args") else None
+                def base_local(e):
+                    e = hu.strip_all(e)
+                    while e is not None and e.get("k") == "field":
+                        e = hu.strip_all(e["e"])
+                    return hir_local_id(e) if e is not None else None
+                recv = base_local(y["recv"]) if y.get("k") == "mcall" else None
+                arg = base_local(y["args"][0]) if y.get("args") else None
                 if len(pids) == 2 and not (recv in pids[0] and arg in pids[1]):
                     probs.append("the comparator does not compare its first argument's key with its second's as they are (descending order or converted keys)")
         else:
